@@ -170,9 +170,11 @@ package values
 //@ method Test pure
 //@ method IndexValue
 //@ requires arg: arg0 != nil
+//@ assigns F$values.dropWrapper$d, F$values.dropWrapper$v, F$values.dropWrapper$Once
 //@ ensures nonnil: result != nil
 //@ method PropertyValue
 //@ requires arg: arg0 != nil
+//@ assigns F$values.dropWrapper$d, F$values.dropWrapper$v, F$values.dropWrapper$Once
 //@ ensures nonnil: result != nil
 
 // every wrapper records the Go kind its methods rely on
